@@ -365,8 +365,19 @@ func (g *ExprGen) unary(in []*ref.V, depth int) *ref.Expr {
 		case c < 9:
 			return ref.Fn1("filter", g.Pred(ks, 1))
 		case c < 10:
-			return ref.Fn1([]string{"any_c", "all_c"}[r.IntN(2)], g.Pred(ks, 1))
+			cond := g.Pred(ks, 1)
+			if r.IntN(3) == 0 {
+				// a condition that yields NOTHING for the elements it rejects (an element without a verdict does not count)
+				cond = ref.Fn1("select", cond)
+			}
+			return ref.Fn1([]string{"any_c", "all_c"}[r.IntN(2)], cond)
 		case c < 11:
+			if r.IntN(4) == 0 {
+				// the empty values of different kinds are different values
+				empties := ref.SeqV(&ref.V{K: ref.Seq, A: []*ref.V{}}, ref.StrV(""), &ref.V{K: ref.Seq, A: []*ref.V{}}, ref.NullV())
+				r.Shuffle(len(empties.A), func(i, j int) { empties.A[i], empties.A[j] = empties.A[j], empties.A[i] })
+				return ref.Pipe(ref.Bin("+", ref.Self(), ref.Lit(empties)), ref.Fn0("unique"))
+			}
 			return ref.Fn1([]string{"unique_by", "group_by"}[r.IntN(2)], g.keyFn(ks))
 		case c < 12:
 			return ref.Fn1("has", ref.Lit(ref.IntV(int64(r.IntN(len(v.A)+2)))))
